@@ -29,6 +29,10 @@ func (d *numberDecoder) DecodeStream(s *Stream, depth int64, p unsafe.Pointer) e
 	if err != nil {
 		return err
 	}
+	if bytes == nil {
+		// null: the destination keeps its value
+		return nil
+	}
 	if _, err := strconv.ParseFloat(*(*string)(unsafe.Pointer(&bytes)), 64); err != nil {
 		return errors.ErrSyntax(err.Error(), s.totalOffset())
 	}
@@ -44,6 +48,10 @@ func (d *numberDecoder) Decode(ctx *RuntimeContext, cursor, depth int64, p unsaf
 	bytes, c, err := d.decodeByte(ctx.Buf, cursor)
 	if err != nil {
 		return 0, err
+	}
+	if bytes == nil {
+		// null: the destination keeps its value
+		return c, nil
 	}
 	if _, err := strconv.ParseFloat(*(*string)(unsafe.Pointer(&bytes)), 64); err != nil {
 		return 0, errors.ErrSyntax(err.Error(), c)
